@@ -81,6 +81,10 @@ pub fn run_ops<T: HScalar, P: Prob<T>>(mut p: P, ops: &[Value], out: &mut Vec<Va
                 let a = vec_in::<T>(&op[1]);
                 out.push(json!({"op": "ref", "v": reference::<T>(ctx, &a)}));
             }
+            "ref_current" => {
+                let a = p.p_params();
+                out.push(json!({"op": "ref_current", "v": reference::<T>(ctx, &a)}));
+            }
             "tables" => {
                 out.push(json!({"op": "tables", "v": tables(&p.p_model().inner)}));
             }
